@@ -833,7 +833,13 @@ func (s *TxStore) Rollback(tx mwdb.DBTransaction, height uint64) error {
 				continue
 			}
 
-			err = putRawUnmined(nsUnmined, txHash[:], recVal)
+			// back to the pending set, in the format of that bucket (recVal is the mined location record)
+			rec.Received = rbBlock.Timestamp
+			unminedVal, err := valueUnmined(&rec)
+			if err != nil {
+				return err
+			}
+			err = putRawUnmined(nsUnmined, txHash[:], unminedVal)
 			if err != nil {
 				return err
 			}
